@@ -334,6 +334,11 @@ func CheckGates(c *Ctx, prop string, specs []GateSpec) {
 				}
 			}
 			if !ok {
+				// one check on a merged value (`Contains(phi{a|b}, phi{x|y})`) and the same check made on each
+				// branch (`Contains(a, x)` here, `Contains(b, y)` there) are the same checks
+				g, ok = phiSplitMatch(fg, gates, a)
+			}
+			if !ok {
 				detail := "required check no longer gates the accept outcome: it is absent, its result is unused, or an accept outcome is reachable when it fails"
 				if og, ok2 := cur[fmt.Sprintf("%s|%v", fg.Cond, !fg.FailWhen)]; ok2 {
 					detail = "polarity inverted: the accept outcome is now reachable only when the check FAILS (at " + p.Pos(og.Pos) + ")"
@@ -435,4 +440,150 @@ func wildRe(s string) *regexp.Regexp {
 	r := regexp.MustCompile("^" + strings.Join(parts, ".*") + "$")
 	wildCache[s] = r
 	return r
+}
+
+// phiExpand lists the phi-free readings of a descriptor (every `phi{a|b}`
+// replaced by one of its alternatives), with the alternative chosen per group.
+func phiExpand(s string) (out []string, choices [][]int, groups int) {
+	type res struct {
+		s string
+		c []int
+	}
+	cur := []res{{"", nil}}
+	i := 0
+	for i < len(s) {
+		j := strings.Index(s[i:], "phi{")
+		if j < 0 {
+			for k := range cur {
+				cur[k].s += s[i:]
+			}
+			break
+		}
+		j += i
+		// matching brace
+		depth, k := 0, j+3
+		end := -1
+		for ; k < len(s); k++ {
+			if s[k] == '{' {
+				depth++
+			} else if s[k] == '}' {
+				depth--
+				if depth == 0 {
+					end = k
+					break
+				}
+			}
+		}
+		if end < 0 {
+			for k := range cur {
+				cur[k].s += s[i:]
+			}
+			break
+		}
+		// split alternatives at top level
+		body := s[j+4 : end]
+		var alts []string
+		d, st := 0, 0
+		for k := 0; k < len(body); k++ {
+			switch body[k] {
+			case '{', '(', '[':
+				d++
+			case '}', ')', ']':
+				d--
+			case '|':
+				if d == 0 {
+					alts = append(alts, body[st:k])
+					st = k + 1
+				}
+			}
+		}
+		alts = append(alts, body[st:])
+		var next []res
+		for _, r := range cur {
+			for ai, a := range alts {
+				if len(next) >= 64 {
+					break
+				}
+				// nested phis inside an alternative are expanded as text of that alternative only once
+				next = append(next, res{r.s + s[i:j] + a, append(append([]int(nil), r.c...), ai)})
+			}
+		}
+		cur = next
+		groups++
+		i = end + 1
+	}
+	for _, r := range cur {
+		out = append(out, r.s)
+		choices = append(choices, r.c)
+	}
+	return
+}
+
+// phiSplitMatch: the frozen gate is matched by a set of current gates that
+// together cover every alternative of its merged operands (or, the other way
+// round, by one current gate on a merged value that has the frozen condition
+// among its readings).
+func phiSplitMatch(fg FrozenGate, gates []apo.Gate, a *apo.FnAnalysis) (apo.Gate, bool) {
+	fe, fc, groups := phiExpand(fg.Cond)
+	if groups == 0 {
+		for _, cg := range gates {
+			if cg.FailWhen != fg.FailWhen || !strings.Contains(cg.Cond, "phi{") {
+				continue
+			}
+			ce, _, _ := phiExpand(cg.Cond)
+			for _, e := range ce {
+				if wildMatch(fg.Cond, e) {
+					return cg, true
+				}
+			}
+		}
+		return apo.Gate{}, false
+	}
+	covered := map[[2]int]bool{}
+	var used []apo.Gate
+	for _, cg := range gates {
+		if cg.FailWhen != fg.FailWhen {
+			continue
+		}
+		ce, _, _ := phiExpand(cg.Cond)
+		hit := false
+		for k, e := range fe {
+			for _, x := range ce {
+				if wildMatch(e, x) {
+					hit = true
+					for gi, ai := range fc[k] {
+						covered[[2]int{gi, ai}] = true
+					}
+				}
+			}
+		}
+		if hit {
+			used = append(used, cg)
+		}
+	}
+	if len(used) == 0 {
+		return apo.Gate{}, false
+	}
+	// every alternative of every merged operand must be covered
+	need := map[[2]int]bool{}
+	for _, c := range fc {
+		for gi, ai := range c {
+			need[[2]int{gi, ai}] = true
+		}
+	}
+	for k := range need {
+		if !covered[k] {
+			return apo.Gate{}, false
+		}
+	}
+	g := used[0]
+	g.Once, g.MustPass = true, len(used) == 1 && used[0].MustPass
+	for _, u := range used {
+		g.Once = g.Once && u.Once
+		g.Deps = append(g.Deps, u.Deps...)
+	}
+	if !g.MustPass {
+		g.MustPass = a.JointMust(used)
+	}
+	return g, true
 }
